@@ -13,7 +13,7 @@ use utoipa::ToSchema;
 use uuid::Uuid;
 
 use crate::context_compiler::RECENT_MESSAGES_V1_LIMIT;
-use crate::continuity_stream_cache::ContinuityStreamCache;
+use crate::continuity_stream_cache::{head_seq_seen_by_messages_runs_v1, ContinuityStreamCache};
 use crate::handoff_context_bundle::HandoffContextBundleV1;
 use crate::{
     compaction_auto_summary::{
@@ -499,6 +499,13 @@ impl ContinuityStore {
 
         let mut tail_bytes = INITIAL_TAIL_BYTES;
         while tail_bytes <= MAX_TAIL_BYTES {
+            // The head is read before the tail: whatever the head names is then either in the
+            // tail or still being appended (see head_seq_seen_by_messages_runs_v1).
+            let full_head = self
+                .stream_cache
+                .try_read_head_v1(continuity_id)
+                .ok()
+                .flatten();
             match self.stream_cache.scan_tail_messages_runs_v1(
                 continuity_id,
                 MAX_TAIL_EVENTS,
@@ -508,11 +515,9 @@ impl ContinuityStore {
                     if !tail.events.is_empty() {
                         // Prefer the full continuity sidecar's head seq so `from_seq` matches the
                         // truth stream even when the mr sidecar omits non-message events.
-                        let full_head_seq = self
-                            .stream_cache
-                            .try_read_last_seq(continuity_id)
-                            .ok()
-                            .flatten();
+                        let mr_last_seq = tail.events.last().map(|event| event.seq);
+                        let full_head_seq = full_head
+                            .map(|head| head_seq_seen_by_messages_runs_v1(head, mr_last_seq));
                         let head_seq = full_head_seq
                             .or_else(|| tail.events.last().map(|event| event.seq))
                             .unwrap_or_default();
